@@ -630,3 +630,30 @@ ENGINE_LIMITED = [
                 + I12 + "self.buffer[self.size] = b;\n" + I12 + "self.size += 1;\n" + I12 + "if self.size == 3 {\n"
                 + WRITE_EMIT + I16 + "self.size = 0;\n" + I12 + "}\n" + I12 + "Ok(())\n" + I8 + "})?;\n" + I8 + "Ok(buf.len())\n")]},
 ]
+
+# seeded/benign C11-K: finish through a local `sextet` closure (mask folded into the closure, named mask constant), slice patterns,
+# quad as an array literal; write with `for &b in buf`, `== self.buffer.len()`.  The same with a wrong shift / no mask is caught.
+FINISH_SEXTET = (
+    I8 + "let sextet = |index: u8| BASE64_ENCODE[(index & BASE64_MASK) as usize];\n"
+    + I8 + "let dst = match buffer[..size] {\n"
+    + I12 + "[] => return Ok(inner),\n"
+    + I12 + "[s0] => [sextet(s0 >> 2), sextet(s0 << 4), b'=', b'='],\n"
+    + I12 + "[s0, s1] => [sextet(s0 >> 2), sextet((s0 << 4) | (s1 >> 4)), sextet(s1 << 2), b'='],\n"
+    + I12 + "[s0, s1, s2, ..] => [sextet(s0 >> 2), sextet((s0 << 4) | (s1 >> 4)), sextet((s1 << 2) | (s2 >> 6)), sextet(s2)],\n"
+    + I8 + "};\n"
+    + I8 + "inner.write_all(&dst)?;\n"
+    + I8 + "Ok(inner)\n"
+)
+_MASK_CONST = ("src/encoder.rs", "/// Writable object which encodes input to base64", "const BASE64_MASK: u8 = 0x3f;\n\n/// Writable object which encodes input to base64")
+MUTANTS += [
+    {"id": "C14-benign-finish-sextet-closure", "prop": "C14", "benign": True,
+     "edits": [_MASK_CONST, ("src/encoder.rs", FINISH_BODY, FINISH_SEXTET),
+               ("src/encoder.rs", "        for b in buf.iter().copied() {\n            self.buffer[self.size] = b;\n", "        for &b in buf {\n            self.buffer[self.size] = b;\n"),
+               ("src/encoder.rs", "            if self.size == 3 {\n", "            if self.size == self.buffer.len() {\n")]},
+    {"id": "C14-finish-sextet-closure-wrong-shift", "prop": "C14", "expect": "ENC-BITS/encoder::Base64Encoder::finish",
+     "edits": [_MASK_CONST, ("src/encoder.rs", FINISH_BODY, FINISH_SEXTET.replace("[s0, s1] => [sextet(s0 >> 2), sextet((s0 << 4) | (s1 >> 4)), sextet(s1 << 2), b'=']",
+                                                                                  "[s0, s1] => [sextet(s0 >> 2), sextet((s0 << 4) | (s1 >> 4)), sextet(s1 << 4), b'=']"))]},
+    {"id": "C14-finish-sextet-closure-narrow-mask", "prop": "C14", "expect": "ENC-BITS/encoder::Base64Encoder::finish",
+     "edits": [("src/encoder.rs", "/// Writable object which encodes input to base64", "const BASE64_MASK: u8 = 0x1f;\n\n/// Writable object which encodes input to base64"),
+               ("src/encoder.rs", FINISH_BODY, FINISH_SEXTET)]},
+]
